@@ -683,6 +683,47 @@ class Extractor:
             return True
         return enc is not None and not (isinstance(enc, ast.Constant) and isinstance(enc.value, str))
 
+    @staticmethod
+    def computed_template(name, node, f):
+        """`t.format(...)` / `t.format_map(...)` where the template t is not a constant of the program: the
+        replacement fields of a template taken from data walk attribute and index paths of the arguments
+        (`{0.__init__.__globals__[sys]...}`), i.e. resolve names the data chose.  Constant templates are
+        string literals, UPPER_CASE module / class constants, and locals only ever assigned from those."""
+        if name not in ("format", "format_map") or not isinstance(node, ast.Call) \
+                or not isinstance(node.func, ast.Attribute):
+            return False
+
+        def const(e, depth=0):
+            if isinstance(e, ast.JoinedStr) or (isinstance(e, ast.Constant) and isinstance(e.value, str)):
+                return True
+            if isinstance(e, ast.BinOp) and isinstance(e.op, ast.Add):
+                return const(e.left, depth) and const(e.right, depth)
+            if isinstance(e, ast.IfExp):
+                return const(e.body, depth) and const(e.orelse, depth)
+            last = e.attr if isinstance(e, ast.Attribute) else e.id if isinstance(e, ast.Name) else None
+            if last is None:
+                return False
+            if last.upper() == last and any(c.isalpha() for c in last):
+                return True
+            if isinstance(e, ast.Name) and depth < 3 and getattr(f, "node", None) is not None \
+                    and not isinstance(f.node, ast.Lambda):
+                vals = []
+                for n in ast.walk(f.node):
+                    if isinstance(n, ast.Assign) and any(isinstance(t, ast.Name) and t.id == e.id for t in n.targets):
+                        vals.append(n.value)
+                    elif isinstance(n, ast.AnnAssign) and isinstance(n.target, ast.Name) and n.target.id == e.id \
+                            and n.value is not None:
+                        vals.append(n.value)
+                    elif isinstance(n, (ast.For, ast.comprehension)) and any(
+                            isinstance(t, ast.Name) and t.id == e.id for t in ast.walk(n.target)):
+                        return False
+                    elif isinstance(n, ast.arg) and n.arg == e.id:
+                        return False
+                return bool(vals) and all(const(v, depth + 1) for v in vals)
+            return False
+
+        return not const(node.func.value)
+
     def use(self, f, targets, call, node=None):
         """edges from body f for a resolved reference; call=True for call position"""
         src = f.qual
@@ -718,6 +759,8 @@ class Extractor:
                 self.edge(src, self.leaf(f"method:{t[1]}", classify_method(t[1])))
                 if call and self.computed_codec(t[1], node):
                     self.edge(src, self.leaf(f"method:{t[1]}-with-computed-codec-name", EFFECTFUL))
+                if call and self.computed_template(t[1], node, f):
+                    self.edge(src, self.leaf(f"method:{t[1]}-of-a-computed-template", EFFECTFUL))
             elif k == "byname":
                 internal = self.by_name(t[1])
                 for it in internal:
@@ -731,6 +774,8 @@ class Extractor:
                         self.edge(src, self.leaf(f"method:{t[1]}", classify_method(t[1])))
                     if self.computed_codec(t[1], node):
                         self.edge(src, self.leaf(f"method:{t[1]}-with-computed-codec-name", EFFECTFUL))
+                    if self.computed_template(t[1], node, f):
+                        self.edge(src, self.leaf(f"method:{t[1]}-of-a-computed-template", EFFECTFUL))
                 elif METHODS.get(t[1]) == EFFECTFUL:
                     self.edge(src, self.leaf(f"method:{t[1]}", EFFECTFUL))
             elif k in ("self", "super", "data", "unk"):
